@@ -7,7 +7,7 @@ From Coq Require Import List NArith ZArith Bool Lia String.
 From Slock Require Import Engine.Types Engine.Queues Engine.Timers Engine.Engine Engine.Engine2.
 From Slock Require Import Engine.TimeBase Engine.TimeFrame Engine.TimeStep Engine.TimeWheel Engine.TimeInv Engine.TimeRun.
 From Slock Require Import Engine.TimeEvents Engine.TimeWhere Engine.TimeThm Engine.TimeMono Engine.TimeEvLock Engine.TimeFinal.
-From Slock Require Import Engine.TimeLocal.
+From Slock Require Import Engine.TimeLocal Engine.TimeRegular Engine.TimeZero.
 Import ListNotations.
 Open Scope N_scope.
 
@@ -108,6 +108,86 @@ Proof.
   all: split; [vm_compute; reflexivity|].
   all: match goal with |- ~ has_panic ?x => let y := eval vm_compute in x in replace x with y by (vm_compute; reflexivity) end.
   all: repeat (apply no_panic_cons; [intros site; discriminate|]); apply no_panic_nil.
+Qed.
+
+(* a waiter that is overdue when such a sweep starts is no longer waiting when it ends (answered TIMEOUT by the sweep
+   or granted by one of its wake-up passes) *)
+Theorem C05_b_overdue_answered : forall s r l,
+  TA s -> TW [] (checkT s) s -> (now s < checkT s + 7)%Z -> ~ has_panic (snd (sweep_timeouts s)) ->
+  tlive s r l -> (l_tT l <= now s)%Z -> tdead (fst (sweep_timeouts s)) r.
+Proof. exact sweep_answers_overdue. Qed.
+Goal True. idtac "ASSUMPTIONS-OF C05_b_overdue_answered". Abort.
+Print Assumptions C05_b_overdue_answered.
+
+(* Regular schedules (TimeRegular.regular): core requests, expiry sweeps and role changes anywhere, clock ticks of one
+   second, and a timeout sweep between any two ticks.  Then the lag condition holds by construction, no waiter is
+   overdue when a sweep starts, a waiter whose deadline equals `now` is gone after the sweep, and nobody with a
+   reached deadline is left. *)
+Theorem C05_b_regular_no_loss : forall t0 aoft acts,
+  (0 <= t0)%Z -> regular true acts -> Forall no_sweep_panic (run_states (init_db t0 aoft) acts) ->
+  Forall sweep_ok (run_states (init_db t0 aoft) acts)
+  /\ forall s, In (s, ASweepT) (run_states (init_db t0 aoft) acts) ->
+       (forall r l, tlive s r l -> (now s <= l_tT l)%Z)
+       /\ (forall r l, tlive s r l -> l_tT l = now s -> tdead (fst (sweep_timeouts s)) r)
+       /\ (forall r l, tlive (fst (sweep_timeouts s)) r l -> (now s < timeout_deadline (l_cmd l) (l_start l))%Z).
+Proof. exact regular_no_loss. Qed.
+Goal True. idtac "ASSUMPTIONS-OF C05_b_regular_no_loss". Abort.
+Print Assumptions C05_b_regular_no_loss.
+Example C05_b_regular_no_loss_nonvacuous :
+  regular true c05_demo /\ Forall no_sweep_panic (run_states (init_db 1000000 1) c05_demo).
+Proof.
+  split; [cbn; repeat split|].
+  match goal with |- Forall _ ?x => let y := eval vm_compute in x in replace x with y by (vm_compute; reflexivity) end.
+  repeat (apply Forall_cons; [|]); try apply Forall_nil; unfold no_sweep_panic; cbn [snd fst]; try exact I.
+  all: match goal with |- ~ has_panic ?x => let y := eval vm_compute in x in replace x with y by (vm_compute; reflexivity) end.
+  all: repeat (apply no_panic_cons; [intros site; discriminate|]); apply no_panic_nil.
+Qed.
+
+(* (a)+(b) under a regular schedule: the TIMEOUT reply of a sweep is emitted at server time EXACTLY
+   queue time + Timeout*unit + 1 (within the window [T, T+2 s] of the property) *)
+Theorem C05_ab_regular_exact : forall t0 aoft acts,
+  (0 <= t0)%Z -> regular true acts -> Forall no_sweep_panic (run_states (init_db t0 aoft) acts) ->
+  forall s, In (s, ASweepT) (run_states (init_db t0 aoft) acts) ->
+  forall e, In e (snd (step s ASweepT)) -> is_tr e = true ->
+  exists sq conn c lockid lc lrc d,
+    In (sq, AReq conn c) (run_states (init_db t0 aoft) acts) /\ c_lock c = true
+    /\ e = reply conn (c <| c_lockid := lockid |>) R_TIMEOUT lc lrc d
+    /\ now s = (now sq + Z.of_N (c_timeout c) * tunit c + 1)%Z.
+Proof. exact regular_timeout_exact. Qed.
+Goal True. idtac "ASSUMPTIONS-OF C05_ab_regular_exact". Abort.
+Print Assumptions C05_ab_regular_exact.
+
+(* (c) Timeout = 0: the request is never queued -- the timeout wheel is untouched, no record becomes a live waiter, and
+   if it is answered TIMEOUT that reply is the immediate one, addressed to the requester *)
+Theorem C05_c_timeout0_not_queued : forall s conn c,
+  TA s -> core_cmd c -> c_timeout c = 0 ->
+  tframe core_cmd s (fst (fst (lock_step s conn c))) /\ twheel (fst (fst (lock_step s conn c))) = twheel s
+  /\ (forall r l', tlive (fst (fst (lock_step s conn c))) r l' -> exists l, tlive s r l)
+  /\ forall e, In e (snd (fst (lock_step s conn c))) -> is_tr e = true -> immediate_timeout conn c e.
+Proof. exact lock_timeout0_not_queued. Qed.
+Goal True. idtac "ASSUMPTIONS-OF C05_c_timeout0_not_queued". Abort.
+Print Assumptions C05_c_timeout0_not_queued.
+(* whenever Lock itself answers TIMEOUT (Timeout = 0 and not admitted; also the concurrent-check pre-checks and the
+   timeout-when-data flag), the reply is the immediate one for this request and nothing of it is retained: the record
+   allocated for it is freed again, every other record, every wait queue and all timer structures are unchanged *)
+Theorem C05_c_immediate_timeout_retains_nothing : forall s conn c,
+  TA s -> forall e, In e (snd (fst (lock_step s conn c))) -> is_tr e = true ->
+  immediate_timeout conn c e /\ retained_nothing s (fst (fst (lock_step s conn c))).
+Proof. exact lock_timeout_immediate. Qed.
+Goal True. idtac "ASSUMPTIONS-OF C05_c_immediate_timeout_retains_nothing". Abort.
+Print Assumptions C05_c_immediate_timeout_retains_nothing.
+(* concrete instance: key 7 is held; a second Lock with Timeout = 0 is answered TIMEOUT at once, and managers
+   (hence wait queues), records and timeout structures are exactly as before: the record was freed *)
+Example C05_c_timeout0_nonvacuous :
+  let s := fst (step (init_db 1000000 1) (AReq 1 (make_cmd true 1 0 101 7 0 5 0 10 0 0 None))) in
+  let c := make_cmd true 2 0 102 7 0 0 0 10 0 0 None in
+  TA s /\ core_cmd c /\ c_timeout c = 0
+  /\ snd (fst (lock_step s 2 c)) = [EReply 2 2 R_TIMEOUT 1 0 102 0 0 None]
+  /\ (let s' := fst (fst (lock_step s 2 c)) in
+      mgrs s' = mgrs s /\ store s' = store s /\ twheel s' = twheel s /\ tlong s' = tlong s).
+Proof.
+  cbv zeta. split; [apply step_TA; [apply TA_init; lia|repeat split]|].
+  split; [repeat split|]. split; [reflexivity|]. vm_compute. repeat split.
 Qed.
 
 (* (d) exclusion with grant / cancel.  doTimeOut on a tombstoned record (granted, cancelled, timed out) answers nothing *)
